@@ -43,6 +43,13 @@ Fixpoint first_occ_from (seen : list bytes) (bs : list block) : list block :=
   end.
 Definition first_occ (bs : list block) : list block := first_occ_from [] bs.
 
+(* executable "some CID is opened more than once" *)
+Fixpoint has_repeat (seen : list bytes) (bs : list block) : bool :=
+  match bs with
+  | [] => false
+  | b :: t => mem (fst b) seen || has_repeat (fst b :: seen) t
+  end.
+
 (* position of every section of a payload whose first section starts at [off] *)
 Fixpoint place (off : N) (bs : list block) : list (block * N * N) :=
   match bs with
